@@ -6,7 +6,7 @@
 //! Text keys that start with NUL are annotations for `build` (e.g. "the rp icon field is set")
 //! and are not part of the expected encoding.
 
-use crate::refcbor::Value;
+use crate::refcbor::{self, Value};
 use crate::util::{lattice_len, lattice_uint, text_of_len, Src};
 use ctap_types::ctap2::{self, get_info};
 use ctap_types::serde::cbor_deserialize;
@@ -451,7 +451,19 @@ pub fn gen_att_stmt(src: &mut Src, info: &mut RInfo, packed: bool, x5c: bool) ->
         4 => -257,
         _ => (src.word() as i32) as i64,
     };
-    let mut m = vec![ks("alg", Value::int(alg)), ks("sig", bytes_cap(src, 77))];
+    // signatures as crypto back ends produce them: 64 raw bytes (r || s), a DER sequence of 70-72 bytes, or anything
+    let sig = match src.below(5) {
+        0 => Value::Bytes(src.bytes(64)),
+        1 => {
+            let n = 70 + src.below(3);
+            let mut b = src.bytes(n);
+            b[0] = 0x30;
+            b[1] = (n - 2) as u8;
+            Value::Bytes(b)
+        }
+        _ => bytes_cap(src, 77),
+    };
+    let mut m = vec![ks("alg", Value::int(alg)), ks("sig", sig)];
     if info.opt(x5c) {
         info.l("attStmt:packed+x5c");
         let n = src.below(2);
@@ -469,6 +481,49 @@ pub fn gen_bytes32(src: &mut Src) -> Value {
 pub const MC_OPT: usize = 4; // 3,4,5,6
 
 /// authenticatorMakeCredential response. words: [p3,p4,p5,p6, packed, x5c, values...]
+/// Authenticator data that IS authenticator data (what real authenticators put into member 2):
+/// rpIdHash, flags, counter, and - with `attested` - AAGUID, credential id and a well-formed COSE
+/// key, optionally followed by an extension map. Code that looks inside the blob must still emit it
+/// byte for byte.
+pub fn realistic_auth_data(src: &mut Src, attested: bool) -> Vec<u8> {
+    let mut d = src.bytes(32);
+    let ed = src.bool();
+    let mut flags = if src.bool() { 0x01 } else { 0x05 };
+    if attested {
+        flags |= 0x40;
+    }
+    if ed {
+        flags |= 0x80;
+    }
+    d.push(flags);
+    d.extend_from_slice(&(src.word()).to_be_bytes());
+    if attested {
+        let aaguid: Vec<u8> = (0..16).map(|i| 0x10 + i as u8 + (src.byte() & 0x0F)).collect();
+        d.extend_from_slice(&aaguid);
+        let idl = *src.pick(&[16usize, 32, 64, 0, 1, 128]);
+        d.extend_from_slice(&(idl as u16).to_be_bytes());
+        d.extend(src.bytes(idl));
+        let key = if src.bool() {
+            Value::Map(vec![
+                (Value::int(1), Value::Uint(2)),
+                (Value::int(3), Value::int(-7)),
+                (Value::int(-1), Value::Uint(1)),
+                (Value::int(-2), Value::Bytes(src.bytes(32))),
+                (Value::int(-3), Value::Bytes(src.bytes(32))),
+            ])
+        } else {
+            Value::Map(vec![(Value::int(1), Value::Uint(1)), (Value::int(3), Value::int(-8)), (Value::int(-1), Value::Uint(6)), (Value::int(-2), Value::Bytes(src.bytes(32)))])
+        };
+        d.extend_from_slice(&refcbor::encode(&key));
+    }
+    if ed {
+        let ext = Value::Map(vec![(Value::text("credProtect"), Value::Uint(1 + src.below(3) as u64)), (Value::text("hmac-secret"), Value::Bool(true))]);
+        d.extend_from_slice(&refcbor::encode(&ext));
+    }
+    d.truncate(676);
+    d
+}
+
 pub fn gen_mc_resp(src: &mut Src, info: &mut RInfo) -> Value {
     let p: Vec<bool> = (0..MC_OPT).map(|_| src.bool()).collect();
     let packed = src.bool();
@@ -477,6 +532,11 @@ pub fn gen_mc_resp(src: &mut Src, info: &mut RInfo) -> Value {
         kv(1, Value::text(if src.bool() { "packed" } else { "none" })),
         kv(2, bytes_cap(src, 676)),
     ];
+    if src.chance(1, 3) {
+        info.l("authData:well-formed-attested");
+        let attested = src.chance(7, 8);
+        m[1] = kv(2, Value::Bytes(realistic_auth_data(src, attested)));
+    }
     if info.opt(p[0]) {
         m.push(kv(3, gen_att_stmt(src, info, packed, x5c)));
     }
@@ -507,6 +567,14 @@ pub fn gen_ga_resp(src: &mut Src, info: &mut RInfo) -> Value {
         kv(2, bytes_cap(src, 676)),
         kv(3, bytes_cap(src, 77)),
     ];
+    if src.chance(1, 4) {
+        info.l("authData:well-formed");
+        m[1] = kv(2, Value::Bytes(realistic_auth_data(src, false)));
+        // a signature that looks like what ES256 produces: 64 raw bytes or a DER sequence
+        if src.bool() {
+            m[2] = kv(3, Value::Bytes(src.bytes(64)));
+        }
+    }
     if info.opt(p[0]) {
         m.push(kv(4, gen_user_entity(src, info, pu)));
     }
